@@ -31,7 +31,8 @@ maintenance and clock advances: a read that returns a value returns it from a bi
 is unset or in the future and which has not been idle for the TTI, at the time of its critical section. -/
 theorem C12c_read_serves_only_unexpired : ServesOnlyUnexpired .read := by
   intro c s s' t v _ h hd _ k e hk hm
-  simp only [step] at h
+  replace h := step_step0 h
+  simp only [step0] at h
   unfold stepRead at h
   split at h
   · rename_i k' pk hpc
@@ -56,7 +57,8 @@ theorem C12c_read_unexpired_spelled {c : Cfg} {s s' : State} {t v k : Nat} {e : 
 theorem C12c_expired_read_returns_none {c : Cfg} {s s' : State} {t k : Nat} {pk : Bool} {e : Entry}
     (hpc : s.pc t = .rd k pk) (hm : s.map k = some e) (he : expired c s.now e = true)
     (h : step c s t .read = some s') : s'.pc t = .done none ∧ s'.hist = s.hist ++ [.rdExp t k, .ret t none] ∧ s'.map = s.map := by
-  simp only [step, stepRead, hpc, hm, he, if_true] at h
+  replace h := step_step0 h
+  simp only [step0, stepRead, hpc, hm, he, if_true] at h
   simp at h; subst h; simp
 
 /-- an `rdExp` event in the history had a binding in the register: the miss was due to expiry -/
@@ -69,7 +71,8 @@ theorem C12c_expired_read_had_binding {c : Cfg} {s : State} (h : Reach c s) {pre
 /-- **peek does not refresh the idle time** (nor anything else in the map) -/
 theorem C12c_peek_no_refresh {c : Cfg} {s s' : State} {t k : Nat} (hpc : s.pc t = .rd k true)
     (h : step c s t .read = some s') (j : Nat) : s'.map j = s.map j := by
-  simp only [step, stepRead, hpc] at h
+  replace h := step_step0 h
+  simp only [step0, stepRead, hpc] at h
   split at h
   · simp at h; subst h; rfl
   · split at h
@@ -83,7 +86,8 @@ theorem C12c_peek_no_refresh {c : Cfg} {s s' : State} {t k : Nat} (hpc : s.pc t 
 theorem C12c_get_refreshes_idle_time {c : Cfg} {s s' : State} {t k : Nat} {e : Entry} (hpc : s.pc t = .rd k false)
     (hm : s.map k = some e) (he : expired c s.now e = false) (htti : c.tti ≠ 0)
     (h : step c s t .read = some s') : s'.map k = some { e with la := s.now } ∧ s'.pc t = .done (some e.val) := by
-  simp only [step, stepRead, hpc, hm, he] at h
+  replace h := step_step0 h
+  simp only [step0, stepRead, hpc, hm, he] at h
   simp [htti] at h; subst h; simp
 
 /-- `insert` fixes the deadline when it is CALLED (the entry is built before any lock is taken):
@@ -91,7 +95,8 @@ deadline = clock at the call + TTL (per-insert TTL if given, else the global one
 theorem C12c_insert_deadline_from_call {c : Cfg} {s s' : State} {t k v co : Nat} {o : Option Nat}
     (h : step c s t (.call (.insert k v co o) false) = some s') :
     s'.pc t = .ins k v co (deadline c s.now o) (if c.tti = 0 then 0 else s.now) := by
-  simp only [step] at h
+  replace h := step_step0 h
+  simp only [step0] at h
   unfold stepCall at h
   repeat' split at h
   all_goals (simp at h; try subst h)
@@ -101,7 +106,8 @@ theorem C12c_insert_deadline_from_call {c : Cfg} {s s' : State} {t k v co : Nat}
 theorem C12c_or_insert_deadline_in_section {c : Cfg} {s s' : State} {t k v co : Nat}
     (hpc : s.pc t = .oi k v co) (hm : s.map k = none) (h : step c s t .oiMap = some s') :
     s'.map k = some ⟨v, co, deadline c s.now none, if c.tti = 0 then 0 else s.now⟩ := by
-  simp only [step, stepOiMap, hpc, hm] at h
+  replace h := step_step0 h
+  simp only [step0, stepOiMap, hpc, hm] at h
   simp at h; subst h; simp
 
 /-- the TTI cleanup removes only expired entries: what it leaves out of the map was expired -/
@@ -140,8 +146,10 @@ theorem C12c_or_insert_serves_expired_fails_F6 : ¬ ServesOnlyUnexpired .oiMap :
     rw [hr] at h1; simp at h1
     obtain ⟨hpc, hm, hnow⟩ := h1
     have hreach := Fv.Props.CacheConc.reach_of_run tr _ _ Reach.init hr
+    have hb : (run cfgTtl init tr).map (fun s => blocked cfgTtl s 1 .oiMap) = some false := by decide
+    rw [hr] at hb; simp at hb
     have hex : ∃ s', step cfgTtl s 1 .oiMap = some s' ∧ s'.pc 1 = .done (some 10) := by
-      simp [step, stepOiMap, hpc, hm]
+      simp [step, hb, step0, stepOiMap, hpc, hm]
     obtain ⟨s', hstep, hd⟩ := hex
     have := hst cfgTtl s s' 1 10 hreach hstep hd (by rw [hpc]; simp) 1 ⟨10, 1, 10, 0⟩ (by rw [hpc]; rfl) hm
     rw [hnow] at this
